@@ -117,7 +117,9 @@ Start(o) ==
     /\ o.t = "unread" => (last.t = "pkt" /\ last.st = "ok" /\ ~ra.set)
     /\ cur' = o /\ nops' = nops + 1
     /\ want' = Oracle(o)
-    /\ hist' = IF Gen THEN Append(hist, Ev("op", o.t, o.n, 0, "-", <<>>)) ELSE hist
+    \* (the history also records the length prefix the operation is about to meet: -2 = fewer than 4 bytes)
+    /\ hist' = IF Gen THEN Append(hist, Ev("op", o.t, o.n, IF o.t \in {"pkt", "eof"} /\ Len(logical) >= 4
+                                                             THEN P!LenPrefix(Take(logical, 4)) ELSE 0 - 2, "-", <<>>)) ELSE hist
     /\ UNCHANGED <<stream, pos, rb, hdrn, halted, last>>
     /\ IF o.t = "read" THEN
             /\ pc' = "rd_begin" /\ rd' = [size |-> o.n, got |-> <<>>] /\ cont' = "top"
